@@ -227,3 +227,94 @@ def check_raise_guards(prog, rep, pairs, pyx):
                               (k[0], k[1], sorted(norm(gf) - norm(gg)), sorted(norm(gg) - norm(gf))),
                               rf[k][1].lineno)
     return n
+
+
+TRANSPOSITION_KEYS = ('trans', 'trans_a', 'trans_b')
+
+
+def check_accumulate_options(prog, rep, rel='tenpy/linalg/np_conserved.py',
+                             qual='_tensordot_pre_worker'):
+    """PAIR-accumulate-options: the closures `fast_dot_sum` compute the first block product with
+    one BLAS call and accumulate the remaining ones with further calls of the same routine. All
+    calls inside one closure must use the same transposition options (`trans`, ...), whether
+    given as keywords or through a `**dict` assembled in the enclosing function (dict literals and
+    `.update()` are tracked per branch)."""
+    m = prog.module(rel)
+    f = m.functions.get(qual)
+    if f is None:
+        from .core import AnalysisError
+        raise AnalysisError('%s not found' % qual)
+    n = 0
+
+    def walk(stmts, env):
+        nonlocal n
+        for st in stmts:
+            if isinstance(st, (ast.FunctionDef, ast.AsyncFunctionDef)):
+                calls = [c for c in ast.walk(st) if isinstance(c, ast.Call) and
+                         isinstance(c.func, ast.Name) and c.func.id.startswith('blas_')]
+                opts = []
+                for c in calls:
+                    keys = {}
+                    for k in c.keywords:
+                        if k.arg is not None:
+                            keys[k.arg] = unparse(k.value)
+                        elif isinstance(k.value, ast.Name) and k.value.id in env:
+                            keys.update(env[k.value.id])
+                        else:
+                            keys['?'] = unparse(k.value)
+                    opts.append(({k: v for k, v in keys.items() if k in TRANSPOSITION_KEYS or
+                                  k == '?'}, c))
+                if len(opts) >= 2:
+                    n += 1
+                    rep.instance('PAIR-accumulate-options', {
+                        'closure': st.name, 'line': st.lineno,
+                        'options': [o for o, _ in opts]})
+                    first = opts[0][0]
+                    for o, c in opts[1:]:
+                        if o != first and '?' not in o and '?' not in first:
+                            rep.violation('PAIR-accumulate-options', m, qual,
+                                          'options-differ:%s' % sorted(set(first.items()) ^
+                                                                       set(o.items())),
+                                          '`%s` is called with the transposition options %s, '
+                                          'the first product of the same sum with %s: the '
+                                          'accumulated terms are computed with another operand '
+                                          'layout than the first one' %
+                                          (unparse(c)[:60], o, first), c.lineno)
+                continue
+            if isinstance(st, ast.If):
+                walk(st.body, {k: dict(v) for k, v in env.items()})
+                walk(st.orelse, {k: dict(v) for k, v in env.items()})
+                for x in ast.walk(st):
+                    if isinstance(x, ast.Name) and isinstance(x.ctx, ast.Store):
+                        env.pop(x.id, None)
+                continue
+            if isinstance(st, ast.Assign) and len(st.targets) == 1 and isinstance(
+                    st.targets[0], ast.Name):
+                v = st.value
+                if isinstance(v, ast.Dict) and all(k is not None for k in v.keys):
+                    env[st.targets[0].id] = {
+                        (k.value if isinstance(k, ast.Constant) else '<%s>' % unparse(k)):
+                        unparse(val) for k, val in zip(v.keys, v.values)}
+                else:
+                    env.pop(st.targets[0].id, None)
+                continue
+            if isinstance(st, ast.Expr) and isinstance(st.value, ast.Call) and isinstance(
+                    st.value.func, ast.Attribute) and st.value.func.attr == 'update' and \
+                    isinstance(st.value.func.value, ast.Name) and \
+                    st.value.func.value.id in env and len(st.value.args) == 1:
+                a = st.value.args[0]
+                if isinstance(a, ast.Name) and a.id in env:
+                    env[st.value.func.value.id].update(env[a.id])
+                elif isinstance(a, ast.Dict):
+                    for k, val in zip(a.keys, a.values):
+                        if isinstance(k, ast.Constant):
+                            env[st.value.func.value.id][k.value] = unparse(val)
+                else:
+                    env.pop(st.value.func.value.id, None)
+                continue
+            for x in ast.walk(st):
+                if isinstance(x, ast.Name) and isinstance(x.ctx, ast.Store):
+                    env.pop(x.id, None)
+    walk(f.body, {})
+    return n
+
